@@ -391,9 +391,11 @@ def _bid(ctx, eqn, ins):
 @prim("reshape")
 def _reshape(ctx, eqn, ins):
     x = ins[0]
+    a = x.a
     if eqn.params.get("dimensions") is not None:
-        raise NotEncodable("reshape with dimensions")
-    return [T(x.dtype, x.a.reshape(tuple(int(d) for d in eqn.params["new_sizes"])))]
+        # lax.reshape(operand, new_sizes, dimensions) == reshape(transpose(operand, dimensions), new_sizes)
+        a = np.transpose(a, tuple(int(d) for d in eqn.params["dimensions"]))
+    return [T(x.dtype, a.reshape(tuple(int(d) for d in eqn.params["new_sizes"])))]
 
 
 @prim("transpose")
